@@ -122,6 +122,31 @@ def raw_tree_needs_lowering(x):
         return True
 
 
+def raw_walk_unsafe(x):
+    """True when some node that emits its own layer would itself be rewritten by lowering: dask.optimize emits that
+    node's raw layer as it is.  (A node without a layer of its own goes through ArrayExpr._layer, which materializes it
+    behind its raw name - that fallback is sound, so a raw tree whose only un-lowered nodes are of that kind must work.)"""
+    try:
+        from dask_array._expr import ArrayExpr
+
+        from vf import rewrites as R
+
+        with R.REC.suspend():
+            for n in x.expr.walk():
+                if not isinstance(n, ArrayExpr):
+                    continue
+                if type(n)._layer is ArrayExpr._layer:
+                    continue
+                try:
+                    if n._lower() is not None:
+                        return True
+                except Exception:
+                    return True
+        return False
+    except Exception:
+        return True
+
+
 def optimized_layout_differs(x):
     try:
         from vf import rewrites as R
@@ -134,7 +159,7 @@ def optimized_layout_differs(x):
 
 def known_mechanism(entry, x, exc, other=None):
     """Mechanism keys of the two recorded findings; None for anything else."""
-    if entry == "dask.optimize" and (raw_tree_needs_lowering(x) or (other is not None and raw_tree_needs_lowering(other))):
+    if entry == "dask.optimize" and (raw_walk_unsafe(x) or (other is not None and raw_walk_unsafe(other))):
         # dask.optimize materializes the *raw* tree node by node (dask's _ExprSequence.__dask_graph__ calls
         # _layer() on every unlowered node): layers of nodes that lowering would have rewritten are emitted as is
         return "dask.optimize:raw_tree_walked_without_lowering"
